@@ -28,6 +28,8 @@ def make_recording(partial, npm):
             super().__init__(classes=classes, missing_label=missing_label, cost_matrix=cost_matrix, random_state=random_state)
 
         def _triples(self, X, y, sw):
+            if len(X) == 0:
+                return []
             Xl = list(arrays.raw(arrays.asnd(X)).reshape(len(X), -1)[:, 0]) if isinstance(X, arrays.SymNd) else list(np.asarray(X)[:, 0])
             yl = list(arrays.raw(arrays.asnd(y))) if isinstance(y, arrays.SymNd) else list(np.asarray(y))
             if sw is None:
